@@ -559,3 +559,70 @@ pub fn attrs(args: &[String]) -> String {
     }
     format!("ok {} dom={} bad={}", out, dom_out, bad.join(";"))
 }
+
+// nsinfo <text>: the namespace view of the INFORMATION SET itself (not of the DOM or of XPath): for every element in
+// document order its name and namespace name, its (non-declaration) attributes with theirs, and its in-scope namespaces:
+//   ok E(<qname>=<uri|~>)[A(<qname>=<uri|~>)...sorted][N(<prefix|~>=<uri>)...sorted]...  |  err:<class>
+pub fn nsinfo(args: &[String]) -> String {
+    let text = args.first().cloned().unwrap_or_default();
+    let (rest, tree) = match xml_parser::document(&text) {
+        Ok(v) => v,
+        Err(_) => return "err:syntax".to_string(),
+    };
+    if !rest.is_empty() {
+        return "err:rest".to_string();
+    }
+    let doc = match info::XmlDocument::new(&tree) {
+        Ok(d) => d,
+        Err(err) => return format!("err:{}", info_err_class(&err)),
+    };
+    fn uri(v: info::error::Result<Option<info::NamespaceUri>>) -> String {
+        match v {
+            Ok(Some(u)) if !u.is_empty() => e(&u),
+            Ok(_) => "~".to_string(),
+            Err(err) => format!("!{}", info_err_class(&err)),
+        }
+    }
+    fn walk(el: &info::XmlNode<info::XmlElement>, out: &mut String, depth: usize) {
+        if depth > 2000 {
+            return;
+        }
+        let elb = el.borrow();
+        let mut attrs: Vec<String> = vec![];
+        for a in elb.attributes().iter() {
+            let a = a.borrow();
+            attrs.push(format!("A({}={})", qn(a.prefix(), a.local_name()), uri(a.namespace_name())));
+        }
+        attrs.sort();
+        let mut nss: Vec<String> = vec![];
+        match elb.in_scope_namespace() {
+            Ok(set) => {
+                for n in set.iter() {
+                    let n = n.borrow();
+                    nss.push(format!("N({}={})", opt(info::Namespace::prefix(&*n)), e(info::Namespace::namespace_name(&*n))));
+                }
+            }
+            Err(err) => nss.push(format!("!{}", info_err_class(&err))),
+        }
+        nss.sort();
+        nss.dedup();
+        out.push_str(&format!(
+            "E({}={})[{}][{}]",
+            qn(elb.prefix(), elb.local_name()),
+            uri(Element::namespace_name(&*elb)),
+            attrs.join(""),
+            nss.join("")
+        ));
+        for k in elb.children().iter() {
+            if let info::XmlItem::Element(c) = &*k {
+                walk(c, out, depth + 1);
+            }
+        }
+    }
+    let mut out = String::new();
+    match doc.borrow().document_element() {
+        Ok(root) => walk(&root, &mut out, 0),
+        Err(_) => return "err:noroot".to_string(),
+    }
+    format!("ok {}", out)
+}
